@@ -164,7 +164,16 @@ Exempt(ms) == BypassList(ms, Scratch0)
 (***************************************************************************)
 (* The price rule (cross-multiplied, exact): the code requires             *)
 (*   fee >= ceil(gas * p / PD)   <=>   fee * PD >= gas * p                 *)
-(* with p = max(global, node) (CombinedGasPricesRequirement, one denom).   *)
+(* with p = max(global, node) (CombinedGasPricesRequirement).              *)
+(* `fee`, `minp`, `localp` are amounts / prices in THE denom of the global *)
+(* fee.  The rule as CombinedGasPricesRequirement states it (doc comment,  *)
+(* its own unit tests, and the Gaia module it was forked from): the denoms *)
+(* that count are the GLOBAL fee's; a node price in a denom the global fee *)
+(* does not list changes nothing ("no overlapping denom, combined price =  *)
+(* global price"), and neither does a fee offered in such a denom.  The    *)
+(* model therefore has no variable for them: traces recorded with such a   *)
+(* node price (driver mode `multidenom`, check id X02D) carry the extra    *)
+(* fee in a.fee2 and are judged by this same rule.                         *)
 (***************************************************************************)
 ReqPrice == IF localp > minp THEN localp ELSE minp
 FeeEnough(fee, gas) == fee * PD >= gas * ReqPrice
